@@ -103,6 +103,22 @@ type Decoded struct {
 	Dir    string
 }
 
+// Layout is the wire layout of one struct type, transcribed from the RFC's presentation-language
+// definition: compared field by field with the struct's Go types and `tls` tags.
+type Layout struct {
+	Type   string
+	Props  []string
+	Fields []LayoutField
+	File   string
+	Line   int
+	Dir    string
+}
+
+type LayoutField struct {
+	Name string
+	Wire string // uint8..uint64 | enum(N) | opaque<a..b> | opaque[N] | vector<a..b> of T | struct T | select(F=v) T
+}
+
 type ContractFile struct {
 	Path      string
 	Dir       string
@@ -110,6 +126,7 @@ type ContractFile struct {
 	Specs     []*SpecFunc
 	Lemmas    []*Lemma
 	Decoded   []*Decoded
+	Layouts   []*Layout
 	GlobalInvs []Clause // facts about package-level variables established by package initialisation and never changed
 	InitInvs   []Clause // the global invariants that are also proved on the package initializer (`init-establishes`)
 }
@@ -257,6 +274,31 @@ func parseContractFile(path string) (*ContractFile, error) {
 				return nil, err
 			}
 			cf.Decoded = append(cf.Decoded, &Decoded{Type: hd[0], Callee: hd[2], C: c, Dir: cf.Dir})
+			cur = nil
+			continue
+		case "layout":
+			// layout TypeName C04 ...: Field wire; Field wire; ...
+			ci := strings.Index(rest, ":")
+			if ci < 0 {
+				return nil, fail("layout needs ':'")
+			}
+			head := strings.Fields(rest[:ci])
+			if len(head) == 0 {
+				return nil, fail("layout needs a type name")
+			}
+			ly := &Layout{Type: head[0], Props: head[1:], File: path, Line: ln, Dir: cf.Dir}
+			for _, part := range strings.Split(rest[ci+1:], ";") {
+				part = strings.TrimSpace(part)
+				if part == "" {
+					continue
+				}
+				fs := strings.SplitN(part, " ", 2)
+				if len(fs) != 2 {
+					return nil, fail("layout field %q: want 'Field wire'", part)
+				}
+				ly.Fields = append(ly.Fields, LayoutField{Name: fs[0], Wire: strings.TrimSpace(fs[1])})
+			}
+			cf.Layouts = append(cf.Layouts, ly)
 			cur = nil
 			continue
 		case "lemma":
